@@ -44,6 +44,8 @@ func c14Corpus(c *Check) []c14Prog {
 		c14Prog{"two-aliases", map[string]string{"main.tsh": "import (\n\tx \"lib.tsh\"\n\ty \"lib.tsh\"\n)\n\nprint(x.Get4(), y.Twice4(1))\n", "lib.tsh": lib(4)}},
 		c14Prog{"subdir", map[string]string{"main.tsh": "import h \"sub/dir/h.tsh\"\nimport2 := 1\nprint(h.Get5(), import2)\n", "sub/dir/h.tsh": lib(5)}},
 		c14Prog{"std-and-local", map[string]string{"main.tsh": "import (\n\t\"strings\"\n\tl \"lib.tsh\"\n)\n\nprint(strings.HasPrefix(\"abc\", \"a\"), l.Get6())\n", "lib.tsh": "import \"strings\"\n\n" + lib(6) + "func Up() bool {\n\treturn strings.HasSuffix(\"abc\", \"c\")\n}\n"}},
+		c14Prog{"std-then-plain-local", map[string]string{"main.tsh": "import (\n\t\"strings\"\n\tl \"lib.tsh\"\n)\n\nprint(strings.HasPrefix(\"abc\", \"a\"), l.Get9())\n", "lib.tsh": lib(9)}},
+		c14Prog{"plain-local-then-std", map[string]string{"main.tsh": "import (\n\tl \"lib.tsh\"\n\t\"strings\"\n\to \"os\"\n)\n\nprint(strings.HasSuffix(\"abc\", \"c\"), l.Get10(), len(o.Shell()) > 0)\n", "lib.tsh": lib(10)}},
 		c14Prog{"all-builtins", map[string]string{"main.tsh": "s := []string{\"a\"}\ns[3] = \"d\"\nt := []string{}\nn := copy(t, s)\nwrite(\"f.txt\", \"x\")\nwrite(\"f.txt\", \"y\", true)\nif exists(\"f.txt\") {\n\tprint(read(\"f.txt\"), n, len(s), len(\"abc\"), itoa(5), s[0])\n}\na, b, code := @echo(\"hi\") | @cat()\nprint(a, code)\nv := input(\"p: \")\nprint(v)\npanic(\"end\")\n"}},
 		// same main file bytes, different imported files: the output must follow the imports
 		c14Prog{"twin-a", map[string]string{"main.tsh": "import l \"lib.tsh\"\n\nprint(l.Get7(), l.Twice7(2))\n", "lib.tsh": lib(7)}},
